@@ -8,7 +8,7 @@ ID = "C11"
 LEVEL = "exploration"
 RULE = ("Hypothesis-generated 1D columns (vp/c11gen.py; quick 3200 / thorough 24000 cases): ADVECTION / TRANSPORT, 1-12 cells (thorough 1-40), 1-8 shifts (thorough 1-20), "
         "forward/back/diffusion_only, all 9 boundary pairs, equal/unequal lengths, dispersivities, diffusion coefficient, time step, "
-        "0-1 stagnant layer (first-order exchange or explicit MIX), multi_d off/explicit/implicit with its parameters, 2-4 distinct "
+        "0-3 stagnant layers (first-order exchange or explicit MIX pairs), end-cell dispersivity/length contrast at constant boundaries, multi_d off/explicit/implicit with its parameters, 2-4 distinct "
         "conservative solutions (Na K Li Ca Mg Cl Br N(5)) spread over cells, inflow 0 and n+1, optional calcite/exchanger. "
         "Observation: USER_PUNCH doubles per cell and shift. Oracle clause chosen from the configuration only: (i) inventory, (ii) exact "
         "shift, (iii) range, (iv) inventory with solids. Non-trivial = a clause was applied and ((>=3 cells with >=2 distinct "
@@ -95,6 +95,9 @@ def observe(case, ctx):
         err = I.errors()
         if rc != 0 or err.strip():
             first = (err.strip().split("\n") or [""])[0]
+            if "egative concentration" in err or "egative moles" in err:
+                # the statement quantifies over calculations that complete: counted, never a violation
+                raise Discard("run_error:negative_concentration")
             raise Discard("run_error:" + first[:60])
         warn = I.warnings()
         T = I.table()
@@ -177,7 +180,10 @@ def inv_weights(case, cfg):
     n = case["n"]
     w = {i: 1.0 for i in range(1, n + 1)}
     s = case["stag"]
-    if s is not None:
+    if s is not None and s["mode"] == "layers":
+        for c, i, l in G.stag_cells(case):
+            w[c] = 1.0            # explicit MIX pairs exchange equal water masses: plain mole sum
+    elif s is not None:
         for i in range(n):
             f = 1.0
             if s["mode"] == "exch" and not cfg["md_on"]:
@@ -447,7 +453,7 @@ def check_case_inproc(case, ctx):
     nt = bool(applied) and ((n >= 3 and ndist >= 2 and ch) or ("ii" in applied and case["shifts"] >= 2 and nshift > 0))
     md = "off" if not cfg["md_on"] else ("implicit" if case["implicit"] else ("explicit" if cfg["md_active"] else "disabled_by_por_lim"))
     classes = ["keyword=" + ("TRANSPORT" if cfg["T"] else "ADVECTION"), "flow=" + case["flow"], "bc=%s/%s" % tuple(case["bc"]),
-               "multi_d=" + md, "stagnant=" + (case["stag"]["mode"] if case["stag"] else "0"),
+               "multi_d=" + md, "stagnant=" + (("layers%d" % case["stag"]["L"] if case["stag"]["mode"] == "layers" else case["stag"]["mode"]) if case["stag"] else "0"),
                "cells" + bucket(n, [2, 5, 12, 25, 40]), "shifts" + bucket(case["shifts"], [1, 4, 8, 20]),
                "lengths=" + ("equal" if cfg["equal"] else "unequal"), "fam=" + case["fam"],
                "clauses=" + ("+".join(applied) if applied else "none")]
@@ -459,6 +465,8 @@ def check_case_inproc(case, ctx):
         classes.append("mcd_added_negligible")
     for x in case.get("excluded", []):
         classes.append("excluded:" + x)
+    if "end_contrast" in case:
+        classes.append("end_cell_contrast_at_constant_boundary")
     if "Unequal cell-lengths" in obs["warn"]:
         classes.append("warned_unequal_lengths")
     return {"nontrivial": nt, "classes": classes}
